@@ -206,6 +206,11 @@ func c01Run(c *Ctx) {
 	if ok {
 		c01Inject(c, p, g)
 	}
+	// (4) defaults and overrides are per call: one loaded model is run with the feed, then
+	// with the other set of input names (override removed / added), then with the feed again
+	if ok && len(p.Shadow) > 0 {
+		c01DefaultsPerCall(c, p, g, outs)
+	}
 	if c.Idx%500 == 41 {
 		c.Sample(map[string]any{"program": trunc(desc, 500), "nodes": len(p.Nodes), "declared_outputs": outs, "feed": feedString(p.Feed)})
 	}
@@ -441,4 +446,54 @@ func c01Inject(c *Ctx, p *program, g *mon.Graph) {
 			seen = true
 		}
 	}
+}
+
+// c01DefaultsPerCall: "an initializer that is also a graph input only supplies
+// that input's default": the default applies in every call in which the caller
+// leaves the input out, whatever earlier calls on the same Model supplied.
+func c01DefaultsPerCall(c *Ctx, p *program, g *mon.Graph, outs []string) {
+	other := map[string]*ref.T{}
+	for k, v := range p.Feed {
+		other[k] = v
+	}
+	for _, it := range p.Inits {
+		if !p.Shadow[it.Name] {
+			continue
+		}
+		if _, overridden := other[it.Name]; overridden {
+			delete(other, it.Name)
+		} else {
+			other[it.Name] = uniformT(c.R, it.T.DT, it.T.Shape, 2)
+		}
+	}
+	bytes := g.Bytes()
+	sess := mon.NewSession(bytes)
+	if sess.Err != nil {
+		return
+	}
+	first := sess.Run(p.Feed, outs)
+	second := sess.Run(other, outs)
+	third := sess.Run(p.Feed, outs)
+	fresh := mon.RunBytes(bytes, other, outs)
+	c.Eval(4)
+	c.Count("defaults-per-call-sequences", 1)
+	if first.Kind == mon.Panic || second.Kind == mon.Panic || third.Kind == mon.Panic {
+		c.Violation("program:panic", "sequence of Runs with different input-name sets: %s %s %s", trunc(first.Describe(), 100), trunc(second.Describe(), 100), trunc(third.Describe(), 100))
+		return
+	}
+	if d := diffOutcomes(fresh, second); d != "" {
+		c.Violation("program:default-or-override-leaks-between-calls", "after a Run with inputs %s, a Run with inputs %s differs from the same Run on a freshly loaded model: %s", feedNames(p.Feed), feedNames(other), d)
+	}
+	if d := diffOutcomes(first, third); d != "" {
+		c.Violation("program:default-or-override-leaks-between-calls", "the Run with inputs %s differs after a Run with inputs %s in between: %s", feedNames(p.Feed), feedNames(other), d)
+	}
+}
+
+func feedNames(f map[string]*ref.T) string {
+	var names []string
+	for k := range f {
+		names = append(names, k)
+	}
+	sort.Strings(names)
+	return fmt.Sprint(names)
 }
